@@ -20,7 +20,8 @@ RULE = (
     "parameter batch. Oracle: sum_facets mean_points w*mismatch^2 with the outward normal derived from geometry "
     "(facet k pins coordinate k//2 to min (even k) / max (odd k)). Metamorphic: scalar vs length-one f; 1 vs k time "
     "points for time-independent u and f. Non-trivial = f != 0 (by construction), the configured per-facet "
-    "contributions pairwise distinct (>1e-6) and non-zero."
+    "contributions pairwise distinct (>1e-6) and non-zero. Sub-check large_batches: the same oracle with 5..2050 border "
+    "points per facet and 33..2050 interior rows (block-size boundaries of chunked evaluation; seeded lattice coordinates)."
 )
 ASSUMPTIONS = ["tolerance 1e-9*(1+scale) in x64", "a per-component boundary weight is not generated (no defined meaning)"]
 TOL = 1e-9
@@ -94,6 +95,17 @@ def strat():
     @st.composite
     def s(draw):
         spec = draw(single_spec(kinds=("statio", "nonstatio"), want=("boundary",), maybe=(), param_batch="maybe"))
+        return {"spec": spec}
+
+    return s().filter(lambda c: c["spec"]["boundary"] is not None)
+
+
+def strat_big():
+    from hypothesis import strategies as st
+
+    @st.composite
+    def s(draw):
+        spec = draw(single_spec(kinds=("statio", "nonstatio"), want=("boundary",), maybe=(), param_batch="maybe", big="always"))
         return {"spec": spec}
 
     return s().filter(lambda c: c["spec"]["boundary"] is not None)
@@ -225,6 +237,9 @@ def subchecks():
         SubCheck(name="boundary_vs_reference", mode="given", strategy=strat, run_case=run_case,
                  counts={"quick": 200, "thorough": 5000}, shards={"quick": 8, "thorough": 16}, clear_every=60,
                  doc="boundary term vs per-facet numpy reference (outward normal from geometry) + scalar/(1,) f invariance"),
+        SubCheck(name="large_batches", mode="given", strategy=strat_big, run_case=run_case,
+                 counts={"quick": 24, "thorough": 400}, shards={"quick": 8, "thorough": 16}, clear_every=6,
+                 doc="the same oracle with 5..2050 border points per facet and 33..2050 interior rows"),
         SubCheck(name="time_point_invariance", mode="given", strategy=strat_time_indep, run_case=run_time_indep,
                  counts={"quick": 40, "thorough": 800}, shards={"quick": 2, "thorough": 16}, clear_every=60,
                  doc="time-independent u and f: same value for 1 and k time points"),
